@@ -334,6 +334,14 @@ func runHistory(r *Run, in *epochInput, cf *CaseFile, caseID int) historyResult 
 			}
 			prevSpecies[s.Id] = [2]int{s.Age, nv}
 		}
+		// does the population hold genomes without a common first gene (no common ancestry)?
+		unrelated := false
+		for _, o := range pop.Organisms {
+			if len(o.Genotype.Genes) > 0 && len(pop.Organisms[0].Genotype.Genes) > 0 &&
+				o.Genotype.Genes[0].InnovationNum != pop.Organisms[0].Genotype.Genes[0].InnovationNum {
+				unrelated = true
+			}
+		}
 		var eerr error
 		func() {
 			defer func() {
@@ -347,7 +355,7 @@ func runHistory(r *Run, in *epochInput, cf *CaseFile, caseID int) historyResult 
 			res.err = eerr
 			steps = append(steps, fmt.Sprintf("{| es_fitness := %s; es_go := None |}", FList(fits)))
 			key := "epoch-error"
-			if in.Random && (strings.Contains(eerr.Error(), "genome has no genes") || strings.Contains(eerr.Error(), "genome has either no traits od genes")) {
+			if in.Random && unrelated && (strings.Contains(eerr.Error(), "genome has no genes") || strings.Contains(eerr.Error(), "genome has either no traits od genes")) {
 				key = "singlepoint-empty-child-unrelated-parents"
 			}
 			if in.Prop == "C02" || in.Prop == "C16" || in.Prop == "C01" {
